@@ -65,6 +65,7 @@ var c14 struct {
 		Backoff(time.Duration, bool) time.Duration
 	}
 	backoffSliding bool
+	jitterMode     int // 0 symbolic, 1 always the minimum, 2 always the maximum
 	elapsed        time.Duration
 	respErr        bool
 	deadlineSet    bool
@@ -91,6 +92,13 @@ func c14StubBackoffUntil(f func() (bool, error), backoff interface {
 func c14StubJitter(d time.Duration, maxFactor float64) time.Duration {
 	if maxFactor <= 0.0 {
 		maxFactor = 1.0
+	}
+	if c14.jitterMode != 0 {
+		// rate harness: the whole run at one extreme of the contract (concrete arithmetic)
+		if c14.jitterMode == 1 {
+			return d
+		}
+		return d + time.Duration(float64(d)*maxFactor)
 	}
 	pm := int64(maxFactor * 1000)
 	x := zzverif.Int64("jitter")
@@ -373,6 +381,13 @@ func VerifC14ReloginConfig() {
 	c14.script = append(c14.script, 0)
 	for i := 0; i <= fails; i++ {
 		if reloadAt == i {
+			if i == 0 && zzverif.Bool("stillConnectedAtReload") {
+				// the reload arrives while the previous session is still up; the session is lost afterwards
+				prev, perr := NewControl(svr.ctx, &SessionContext{Common: common, RunID: "rid", Conn: &c14Conn{}, Connector: &c14Connector{conn: &c14Conn{}}, AuthSetter: &c14Setter{}})
+				zzverif.Assume(perr == nil)
+				svr.ctl = prev
+				zzverif.Reach("C14.relogin.reloaded-while-connected")
+			}
 			zzverif.Assert(svr.UpdateAllConfigurer([]v1.ProxyConfigurer{mk("b")}, nil) == nil, "C14.relogin.reload-accepted")
 			want = "b"
 			zzverif.Reach("C14.relogin.reloaded-during-outage")
@@ -391,4 +406,42 @@ func VerifC14ReloginConfig() {
 	st := svr.ctl.pm.GetAllProxyStatus()
 	zzverif.Assert(len(st) == 1 && st[0].Name == want, "C14.relogin.registers-the-configuration-current-at-login")
 	zzverif.Reach("C14.relogin.done")
+}
+
+var c14clock int64 // virtual time in ns (stub for time.Now in the rate harness)
+
+func c14StubNow() time.Time { return time.Time{}.Add(time.Duration(c14clock)) }
+
+// VerifC14BackoffRate: while every attempt fails and real time passes only through the waits the
+// loop itself performs, the session supervisor's retry pace escalates: after a bounded number of
+// quick retries the delay grows past the fast-retry delay and keeps doubling up to the ceiling
+// (no sustained tight loop).
+func VerifC14BackoffRate() {
+	c14.untilFn, c14.untilN, c14.backoffFn, c14.backoffN, c14.backoffMgr = nil, 0, nil, 0, nil
+	c14clock = int64(1000 * time.Second)
+	c14.jitterMode = 1 + zzverif.Choice("jitterExtreme", 2)
+	defer func() { c14.jitterMode = 0 }()
+	ctx, cancel := context.WithCancelCause(context.Background())
+	svr := &Service{ctx: ctx, cancel: cancel, common: &v1.ClientCommonConfig{}}
+	done := make(chan struct{})
+	close(done)
+	svr.ctl = &Control{doneCh: done}
+	svr.keepControllerWorking()
+	zzverif.Assert(c14.backoffMgr != nil, "C14.rate.loop-is-paced-by-a-backoff-manager")
+	mgr := c14.backoffMgr
+	delay := mgr.Backoff(0, false)
+	n := zzverif.Param("failures", 12)
+	quick := 0
+	for i := 0; i < n; i++ {
+		c14clock += int64(delay) // the loop waits `delay`, the attempt itself fails at once
+		delay = mgr.Backoff(delay, true)
+		if delay < time.Second {
+			quick++
+		}
+	}
+	// 3 fast retries per window and the short escalation steps that start from the fast delay
+	zzverif.Assert(quick <= 8, "C14.rate.bounded-number-of-quick-retries-under-sustained-failure")
+	zzverif.Assert(delay >= time.Second, "C14.rate.sustained-failure-escalates-beyond-the-fast-retry-delay")
+	zzverif.Assert(delay <= 20*time.Second, "C14.rate.escalation-stops-at-the-ceiling")
+	zzverif.Reach("C14.rate.done")
 }
